@@ -13,6 +13,7 @@ mod c09;
 mod c10;
 mod c11;
 mod c12;
+mod c13;
 mod c18;
 mod lite;
 mod truth;
@@ -69,6 +70,7 @@ fn main() {
             "C10" => c10::replay(&v),
             "C11" => c11::replay(&v),
             "C12" => c12::replay(&v),
+            "C13" => c13::replay(&v),
             "C18" => c18::replay(&v),
             _ => {
                 eprintln!("no replay for {id}");
@@ -88,6 +90,7 @@ fn main() {
             "C10" => c10::run(tier),
             "C11" => c11::run(tier),
             "C12" => c12::run(tier),
+            "C13" => c13::run(tier),
             "C18" => c18::run(tier),
             "SMOKE" => smoke::run("/tmp/x/smoke"),
             _ => {
